@@ -11,6 +11,10 @@ from ..report import Out
 from .. import exact as ex
 
 ID = 'C08'
+# sub-checks added after the seeded-change waves (DESIGN.md sections 5 and 6)
+EXTENSIONS = [
+    'aliasing pass: the caller scribbles over a returned rule and asks again',
+]
 LEVEL = 'exploration'
 RULE = ("items = (reference cell, order n) for all 7 reference cells and all n in [-3, 64]; an "
         "accepted order is checked on EVERY monomial of total degree <= n (simplices), "
